@@ -161,10 +161,25 @@ package scheduler
 // these bodies is a generated obligation. Input class (the property's own): any scalar / string, any sub-message
 // pointer possibly nil, list elements and map values non-nil; the context objects themselves are set up.
 
+// a foreign (non-YuniKorn) allocation is booked on its node exactly once per key: the first report adds it, every later
+// report for the same key updates it in place; an invalid report (not bound, no node id, unknown node) leaves no trace
 //@ func (pc *PartitionContext) handleForeignAllocation(allocationKey, applicationID, nodeID string, node *objects.Node, alloc *objects.Allocation) (requestCreated bool, allocCreated bool, err error)
-//@   props C13
+//@   props C13 C12
 //@   sweep
 //@   holds pc != nil && alloc != nil
+//@   at[first] call objects.Node.AddAllocation#1: assert arg0 == node && arg1 == alloc && node != nil && alloc.allocated && alloc.nodeID != ""
+//@   at[again] call objects.Node.UpdateForeignAllocation#1: assert arg0 == node && arg1 == alloc && node != nil
+//@   ensures[once] err == nil ==> ncalls(objects.Node.AddAllocation) + ncalls(objects.Node.UpdateForeignAllocation) == 1 && ncalls(scheduler.PartitionContext.getOrStoreForeignAlloc) == 1
+//@   ensures[notrace] err != nil ==> ncalls(scheduler.PartitionContext.getOrStoreForeignAlloc) == 0 && ncalls(objects.Node.AddAllocation) == 0 && ncalls(objects.Node.UpdateForeignAllocation) == 0
+
+//@ func (pc *PartitionContext) getOrStoreForeignAlloc(alloc *objects.Allocation) (known bool)
+//@   props C12
+//@   mode nopanic=off
+//@   assigns pc.foreignAllocs[*]
+//@   ensures[known] known == (old(pc.foreignAllocs[alloc.allocationKey]) != nil)
+//@   ensures[stored] !known ==> pc.foreignAllocs[alloc.allocationKey] == alloc
+//@   ensures[kept] known ==> pc.foreignAllocs[alloc.allocationKey] == old(pc.foreignAllocs[alloc.allocationKey])
+//@   ensures[others] forall k string :: k != alloc.allocationKey ==> pc.foreignAllocs[k] == old(pc.foreignAllocs[k])
 
 //@ func (cc *ClusterContext) processAllocationReleases(releases []*si.AllocationRelease, rmID string)
 //@   props C13
@@ -205,6 +220,8 @@ package scheduler
 //@   props C13
 //@   sweep
 //@   holds pc != nil
+//@   at[offnode:C12,C03] call objects.Node.RemoveAllocation#1: assert arg0 == node && node != nil && arg1 == allocID && alloc == old(pc.foreignAllocs[allocID]) && alloc != nil
+//@   at[forgotten:C12,C03] call scheduler.PartitionContext.GetNode#1: assert !(allocID in pc.foreignAllocs) && arg1 == alloc.nodeID
 
 //@ func (cc *ClusterContext) handleRMUpdateAllocationEvent(event *rmevent.RMUpdateAllocationEvent)
 //@   props C13
